@@ -120,6 +120,8 @@ structure EnsSvcSpec (s s' : XState) (p node : String) (idx : Nat) (q : SvcReq) 
     (∀ r ∈ (s.cat p).rows, r.1.pk ≠ pk2 node q.id → r ∈ (s'.cat p).rows) ∧
     (∀ r ∈ (s.cat p).rows, r.1.pk = pk2 node q.id →
       svcFind (s.cat p).st node q.id = some r.1 ∧ extFind (s.cat p) node q.id = some r.2)
+  /-- the row at the request's key carries the request's proxy attributes -/
+  attrs : ∀ r ∈ (s'.cat p).rows, r.1.pk = pk2 node q.id → r.2.dest = q.dest ∧ r.2.ups = q.ups ∧ r.2.kind = q.kind
 
 theorem connectName_mk (v : Svc) (e : SvcX) (q : SvcReq) (h1 : v.name = q.name) (h2 : e.kind = q.kind)
     (h3 : e.native = q.native) (h4 : e.dest = q.dest) : connectName (v, e) = q.connectName := by
@@ -192,13 +194,19 @@ theorem ensureServiceX_spec {s s' : XState} {p node : String} {idx : Nat} {q : S
     · next n hn =>
       -- the state after writing row (w, e)
       have put : ∀ (w : Svc) (e : SvcX), w.name = q.name → w.pk = pk2 node q.id → e.pk = w.pk → e.kind = q.kind →
-          e.native = q.native → e.dest = q.dest → e.vip = vip → EnsSvcSpec s (s3.putSvc p w e) p node idx q := by
-        intro w e hn1 hn2 hn3 hn4 hn5 hn6 hn7
+          e.native = q.native → e.dest = q.dest → e.vip = vip → e.ups = q.ups → EnsSvcSpec s (s3.putSvc p w e) p node idx q := by
+        intro w e hn1 hn2 hn3 hn4 hn5 hn6 hn7 hn8
         rw [putSvc_eq, hc3]
         have hcat : (s3.setCat p { st := svcInsert (s.cat p).st w, ext := tupsert SvcX.pk strLt e (s.cat p).ext }).cat p =
             { st := svcInsert (s.cat p).st w, ext := tupsert SvcX.pk strLt e (s.cat p).ext } := cat_setCat_self _ _ _
         have hrows := rows_put (c := s.cat p) w e hn3 hsrt
-        refine ⟨?_, ?_, ?_, ?_, ?_, ?_⟩
+        refine ⟨?_, ?_, ?_, ?_, ?_, ?_, ?_⟩
+        rotate_left 6
+        · intro r hr hk'
+          rw [hcat] at hr
+          rcases (hrows r).mp hr with h1 | ⟨_, h2⟩
+          · rw [h1]; exact ⟨hn6, hn8, hn4⟩
+          · exact absurd (hk'.trans hn2.symm) h2
         · rw [setCat_cfg]; exact hc
         · rw [setCat_kindNames]; exact hk
         · rw [setCat_ghost]; exact hg
@@ -235,12 +243,12 @@ theorem ensureServiceX_spec {s s' : XState} {p node : String} {idx : Nat} {q : S
           unfold extSame at hse
           simp only [Bool.and_eq_true, beq_iff_eq] at hsv hse
           obtain ⟨⟨⟨-, -⟩, hnm⟩, -⟩ := hsv
-          obtain ⟨⟨⟨⟨e1, e2⟩, e3⟩, -⟩, e5⟩ := hse
-          try simp only at hnm e1 e2 e3 e5
+          obtain ⟨⟨⟨⟨e1, e2⟩, e3⟩, e4⟩, e5⟩ := hse
+          try simp only at hnm e1 e2 e3 e4 e5
           obtain ⟨hmem, huniq⟩ := rows_find hsrt hx hex
           have kx : x.pk = pk2 node q.id := (tfind_some hx).2
-          refine ⟨hc, hk, hg, hv, fun q' _ => hf.cat q', x, ex, hnm.symm, kx, e1.symm,
-            connectName_mk x ex q hnm.symm e1.symm e2.symm e3.symm, ?_, by rw [hc3]; exact hmem, ?_, ?_, ?_⟩
+          refine ⟨hc, hk, hg, hv, fun q' _ => hf.cat q', ⟨x, ex, hnm.symm, kx, e1.symm,
+            connectName_mk x ex q hnm.symm e1.symm e2.symm e3.symm, ?_, by rw [hc3]; exact hmem, ?_, ?_, ?_⟩, ?_⟩
           · intro ip hip; exact hvip ip (by rw [e5]; exact hip)
           · intro r hr; rw [hc3] at hr
             by_cases hk' : r.1.pk = pk2 node q.id
@@ -249,11 +257,15 @@ theorem ensureServiceX_spec {s s' : XState} {p node : String} {idx : Nat} {q : S
           · intro r hr _; rw [hc3]; exact hr
           · intro r hr hk'
             rw [huniq r hr hk']; exact ⟨hx, hex⟩
+          · intro r hr hk'
+            rw [hc3] at hr
+            rw [huniq r hr hk']
+            exact ⟨e3.symm, e4.symm, e1.symm⟩
         · simp at h; subst h
-          exact put _ _ rfl rfl rfl rfl rfl rfl rfl
+          exact put _ _ rfl rfl rfl rfl rfl rfl rfl rfl
       · simp at h
       · simp at h; subst h
-        exact put _ _ rfl rfl rfl rfl rfl rfl rfl
+        exact put _ _ rfl rfl rfl rfl rfl rfl rfl rfl
 
 /-! ### `freeVip`, `afterServiceDelete`, `deleteServiceX` -/
 
